@@ -228,7 +228,9 @@ def run_R01_1(model, col, G, vm):
         if kind == "div":
             # must discriminate integer from float operands, truncating for integers
             guards = [g for g, _ in res if g]
-            disc = [g for g in guards if any(w in g for w in ("instruction.Type", "isinstance", "IntegerType", "FloatType", "Kind", ".Type"))]
+            # the discriminator is the *instruction's* type (what typing decided the result is), not the types the operand values
+            # happen to carry (after store-to-load forwarding an int-typed division can receive a float-typed operand)
+            disc = [g for g in guards if any(w in g for w in ("instruction.Type", "isinstance", "IntegerType", "FloatType", "Kind", ".Type")) and "Values" not in g and "op1" not in g and "op2" not in g]
             truncs = [e for g, e in res if is_trunc_div(e, opnames)]
             plains = [e for g, e in res if (classify_value_expr(e, opnames) or (None,))[0:2] == ("binop", "Div")]
             floors = [e for g, e in res if (classify_value_expr(e, opnames) or (None,))[0:2] == ("binop", "FloorDiv")]
